@@ -73,6 +73,21 @@ Proof. reflexivity. Qed.
 Theorem C14_equal_handles_hash_equally : forall h1 h2 : handle, h1 = h2 -> handle_hash_word h1 = handle_hash_word h2.
 Proof. intros h1 h2 ->. reflexivity. Qed.
 
+From Gecs Require Import Borrow Run Spec OracleFacts.
+
+(** Model against specification oracle: the oracle (spec/Spec.v) checks the declarative reading of this
+    property on every conversion observation of the implementation - raw round trip, id byte, the checked
+    conversion into every declared archetype succeeding exactly for the archetype whose id the handle
+    carries and returning the same pair, the three Select* results.  The model's own observation passes
+    that check for EVERY raw pair, declaration and state: the model satisfies the reading, and the
+    oracle cannot raise this alarm on code that behaves like the model. *)
+Theorem C14_the_oracle_accepts_the_model : forall cfg d qs st sst key ver,
+  match step cfg d qs st (OConv KEnt (RRaw key ver)) with
+  | Some (st', obs) => st' = st /\ spec_step cfg d qs sst (OConv KEnt (RRaw key ver)) obs = inr sst
+  | None => False
+  end.
+Proof. exact conv_step_accepted. Qed.
+
 Check C14_pack_unpack : forall slot id, slot < 2^24 -> id < 2^8 ->
   key_index (pack_key slot id) = slot /\ key_arch_id (pack_key slot id) = id.
 Check C14_unpack_pack : forall key, key < 2^32 -> pack_key (key_index key) (key_arch_id key) = key.
@@ -93,3 +108,4 @@ Print Assumptions C14_select_unique.
 Print Assumptions C14_hash_injective.
 Print Assumptions C14_eq_is_equality_of_the_bit_pair.
 Print Assumptions C14_equal_handles_hash_equally.
+Print Assumptions C14_the_oracle_accepts_the_model.
